@@ -1,6 +1,6 @@
 (* Proofs about model/Blocklist.v (property C17). *)
 From Coq Require Import String List NArith ZArith Bool Lia.
-From MevVerif Require Import lib.Bytes gen.Generated model.Blocklist.
+From MevVerif Require Import lib.Bytes gen.Generated model.Blocklist check.Check_C17.
 Import ListNotations.
 Open Scope Z_scope.
 
@@ -322,7 +322,7 @@ Lemma unaffected w evs p t :
 Proof. intros H. apply lifted. intros d t0 Hin. exfalso. exact (H d t0 Hin). Qed.
 
 (* the answer is exactly "some placed block covers t" *)
-Lemma exact w evs p t :
+Lemma answer_exact w evs p t :
   Forall (fun e => time_of e <= t) evs -> query_answer w evs p t = covered evs p t.
 Proof.
   intros HF. destruct (covered evs p t) eqn:Ec.
@@ -372,8 +372,17 @@ Lemma gater_now evs p t :
   secured_answer wiring_now evs p t = negb (covered evs p t).
 Proof.
   intros HF. destruct (gater_answers wiring_now evs p t wiring_now_wired) as [H1 H2].
-  rewrite H1, H2, (exact wiring_now evs p t HF). split; reflexivity.
+  rewrite H1, H2, (answer_exact wiring_now evs p t HF). split; reflexivity.
 Qed.
+
+Lemma gater_calls w evs p t m ok :
+  (wired w = true -> dial_answer w evs p t = negb (query_answer w evs p t) /\
+                     secured_answer w evs p t = negb (query_answer w evs p t)) /\
+  (fst (intercept_peer_dial true m p t) = fst (is_blocked m p t) /\
+   fst (intercept_secured true m p t) = fst (is_blocked m p t)) /\
+  (intercept_addr_dial m p = (m, true) /\ intercept_upgraded m p = (m, true) /\
+   intercept_accept m ok = (m, ok)).
+Proof. exact (conj (gater_answers w evs p t) (conj (gater_effect m p t) (gater_others m p ok))). Qed.
 
 (* --- independence of peers ------------------------------------------------------------------ *)
 Definition concerns (p : pid) (e : event) : bool :=
@@ -420,7 +429,28 @@ Proof.
   - split; [discriminate|intros (j & Hj & _); discriminate].
 Qed.
 
-(* --- the code before commit 88cd2d2 ---------------------------------------------------------- *)
+Lemma listing_spec m p t :
+  (listed m p t <> 0 -> snd (is_blocked m p t) = true) /\
+  (listed m p t = 2 <-> exists i, lookup p m = Some i /\ e_dur i = 0).
+Proof. exact (conj (listing_sound m p t) (listing_forever m p t)). Qed.
+
+(* --- the checker used on the implementation's answers accepts every answer of the model ------- *)
+Lemma classify_model w evs p t :
+  Forall (fun e => time_of e <= t) evs -> classify evs p t (query_answer w evs p t) = None.
+Proof.
+  intros HF. unfold classify. rewrite (answer_exact w evs p t HF).
+  destruct (covered evs p t); reflexivity.
+Qed.
+Lemma classify_gater_model evs p t :
+  Forall (fun e => time_of e <= t) evs ->
+  classify evs p t (negb (dial_answer wiring_now evs p t)) = None /\
+  classify evs p t (negb (secured_answer wiring_now evs p t)) = None.
+Proof.
+  intros HF. destruct (gater_now evs p t HF) as [H1 H2]. rewrite H1, H2, !negb_involutive.
+  unfold classify. destruct (covered evs p t); split; reflexivity.
+Qed.
+
+(* --- the code before commit 7f68b0d ---------------------------------------------------------- *)
 Lemma permanent_refuted_v0 :
   exists pre post p t0 t, query_answer_v0 wiring_now (pre ++ Block p 0 t0 :: post) p t = false.
 Proof.
